@@ -14,8 +14,8 @@ from .common import DECIDER
 CREATE_NODE = "geneticengine.representations.tree.initializations:create_node"
 GDT = "geneticengine.grammar.grammar:Grammar.get_distance_to_terminal"
 PREPROCESS = "geneticengine.grammar.grammar:Grammar.preprocess"
-FORMS = ("tuple", "list", "annotated", "union", "abstract", "concrete")
-TRUE_DELTA = {"tuple": 0, "list": 0, "annotated": 0, "union": 0, "abstract": 0, "concrete": 1}  # default depth mode
+FORMS = ("tuple", "list", "annotated", "refined list", "union", "abstract", "concrete")
+TRUE_DELTA = {"tuple": 0, "list": 0, "annotated": 0, "refined list": 0, "union": 0, "abstract": 0, "concrete": 1}  # default depth mode
 
 
 # ------------------------------------------------------------------------------------------- creation increments
@@ -90,11 +90,11 @@ def creation_increments(ctx: Ctx) -> dict[str, tuple[Optional[Lin], ast.AST, str
     """form -> (increment applied to the depth for the children of that form, node, description).  Obtained by interpreting
     create_node on one symbolic type per form (sa/treemodel.py) with a context at depth 2 and reading the depth of the
     context handed to every recursive creation call (for refinements: the call made by the callback given to generate)."""
-    from ..treemodel import (A, ABSTRACT, ANN_INT, Budget, LIST_A, PROD, TUPLE_AB, TreeModel, UNION_AB, Obj, create_node_runs)
+    from ..treemodel import (A, ABSTRACT, ANN_INT, ANN_LIST, Budget, LIST_A, PROD, TUPLE_AB, TreeModel, UNION_AB, Obj, create_node_runs)
     fn = ctx.fn(CREATE_NODE)
     model = TreeModel(ctx, fields={PROD: [("f1", A), ("f2", A)]})
     out: dict[str, tuple[Optional[Lin], ast.AST, str]] = {}
-    for form, sym in (("tuple", TUPLE_AB), ("list", LIST_A), ("annotated", ANN_INT), ("union", UNION_AB), ("abstract", ABSTRACT),
+    for form, sym in (("tuple", TUPLE_AB), ("list", LIST_A), ("annotated", ANN_INT), ("refined list", ANN_LIST), ("union", UNION_AB), ("abstract", ABSTRACT),
                       ("concrete", PROD)):
         try:
             runs = create_node_runs(ctx, model, sym, depth=2)
@@ -167,10 +167,11 @@ def distance_increments(ctx: Ctx) -> dict[str, tuple[Optional[Lin], ast.AST, str
     list / tuple / annotated / union: get_distance_to_terminal is interpreted on a symbolic type of that form in both depth
     modes (recursive calls inlined, table entries symbolic); abstract / concrete: the aggregation equations of preprocess."""
     from ..modelinterp import MaxV, UNKNOWN, Budget
-    from ..treemodel import A, ANN_INT, B, INT, LIST_A, TUPLE_AB, UNION_AB
+    from ..treemodel import A, ANN_INT, ANN_LIST, B, INT, LIST_A, TUPLE_AB, UNION_AB
     out: dict[str, tuple[Optional[Lin], ast.AST, str, Optional[str]]] = {}
     g = ctx.fn(GDT)
-    for form, sym, inner in (("list", LIST_A, (A,)), ("tuple", TUPLE_AB, (A, B)), ("annotated", ANN_INT, (INT,)), ("union", UNION_AB, (A, B))):
+    for form, sym, inner in (("list", LIST_A, (A,)), ("tuple", TUPLE_AB, (A, B)), ("annotated", ANN_INT, (INT,)), ("refined list", ANN_LIST, (A,)),
+                             ("union", UNION_AB, (A, B))):
         incs = {}
         agg = None
         text = ""
